@@ -28,7 +28,8 @@ Shapes == {"omit", "plain", "super", "req"}
 
 \* description of one template: shape per block name, nesting, malformation
 Good == [a : Shapes, b : Shapes, nest : BOOLEAN, bad : {""}]
-Bad  == {[a |-> "plain", b |-> "super", nest |-> FALSE, bad |-> m] : m \in {"dup", "two", "endname"}}
+\* ("two-if" / "two-block": the second extends hides inside an if body / a block body)
+Bad  == {[a |-> "plain", b |-> "super", nest |-> FALSE, bad |-> m] : m \in {"dup", "two", "endname", "two-if", "two-block"}}
         \cup {[a |-> "omit", b |-> "plain", nest |-> FALSE, bad |-> "dup"], [a |-> "super", b |-> "omit", nest |-> TRUE, bad |-> "two"]}
 Descs == Good \cup Bad
 
@@ -51,6 +52,8 @@ NodesOf(i, d, parent) ==
       bad == CASE d.bad = "dup" -> (IF d.a # "omit" THEN <<Block("a", FALSE, <<NText("dup")>>)>>
                                     ELSE IF d.b # "omit" THEN <<Block("b", FALSE, <<NText("dup")>>)>> ELSE <<>>)
                [] d.bad = "two" -> <<Extends("t1")>>
+               [] d.bad = "two-if" -> <<If(TrueE, <<Extends("t1")>>, <<>>, NoElse)>>
+               [] d.bad = "two-block" -> <<Block("c", FALSE, <<NText("c"), Extends("t1")>>)>>
                [] d.bad = "endname" -> <<[Block("c", FALSE, <<NText("c")>>) EXCEPT !.endname = "zz"]>>
                [] OTHER -> <<>>
   IN ext \o <<NText("[" \o ToString(i) \o ":")>> \o blocks \o bad \o <<NOut(P(V("v"))), NText("]")>>
@@ -82,7 +85,7 @@ AllTemplates(last) == Templates(last) \o Extra
 Ann(ts) == [i \in DOMAIN ts |-> <<ts[i][1], AnnotTemplate(ts[i][2])>>]
 
 \* ---- reference resolution (the "what") ---------------------------------------------
-IsBad(d) == d.bad \in {"two", "endname"} \/ (d.bad = "dup" /\ (d.a # "omit" \/ d.b # "omit"))
+IsBad(d) == d.bad \in {"two", "endname", "two-if", "two-block"} \/ (d.bad = "dup" /\ (d.a # "omit" \/ d.b # "omit"))
 WellFormed == \A i \in DOMAIN chain : ~IsBad(chain[i])
 \* definitions of nm from the most derived to the root parent
 DefIdx(nm) == SelectSeq([i \in DOMAIN chain |-> i], LAMBDA i : chain[i][nm] # "omit")
